@@ -43,7 +43,7 @@ def generate(rng, tier):
                 yield f"like {cls} {V(v)} {rt}", "like-builtin"
                 for how in (HOWS if tier == "thorough" else rng.sample(HOWS, 3)):
                     yield f"copyparam {cls} {V(v)} {rt} {how}", "copy-value"
-    n = 60 if tier == "quick" else 60000
+    n = 300 if tier == "quick" else 60000
     for _ in range(n):
         items = []
         for k in range(rng.randrange(0, 9)):
